@@ -102,6 +102,7 @@ func init() {
 }
 
 func c13Gen(r *Rand, tier string, emit func(op any)) {
+	c13GenNest(emit)
 	maxSinks := 3
 	if tier == "thorough" {
 		maxSinks = 4
@@ -220,6 +221,8 @@ func c13Exec(raw json.RawMessage) Result {
 	var op c13Op
 	unmarshal(raw, &op)
 	switch op.K {
+	case "nest":
+		return c13ExecNest(&op)
 	case "multi":
 		p := make([]byte, op.Len)
 		for i := range p {
